@@ -54,3 +54,5 @@ def run(ctx):
     ctx.guard(persistent_state_rule, ctx, "C17.own-pattern")
     from ..rules_misc import error_carriers_rule
     ctx.guard(error_carriers_rule, ctx, "C17.error-carriers")
+    from ..rules_misc import helper_rules
+    ctx.guard(helper_rules, ctx, "C17.helpers")
